@@ -143,6 +143,8 @@ func TestC05(t *testing.T)          { drv.C05(t) }
 func TestC14(t *testing.T)          { drv.C14(t) }
 func TestC15(t *testing.T)          { drv.C15(t) }
 func TestC19Helpers(t *testing.T)   { drv.C19Helpers(t) }
+func TestC13Gen(t *testing.T)       { drv.C13Gen(t) }
+func TestC13Child(t *testing.T)     { drv.C13Child(t) }
 func TestReplay(t *testing.T)  { drv.Replay(t) }
 func TestRegress(t *testing.T) { drv.Regress(t) }
 `
